@@ -1016,9 +1016,50 @@ func (in *Interp) execStmt(fr *frame, n *a.Node) ctl {
 		}
 		fr.ret = copyValue(v)
 		return ctlReturn
+	case a.KIOManip:
+		return in.execIOManip(fr, n.AsIOManip())
 	}
 	in.unsupported(fmt.Sprintf("statement kind %v", n.Kind()))
 	return ctlNone
+}
+
+// execIOManip implements io_bind for a local io_reader / io_writer: inside the
+// block the variable is a fresh buffer over the given slice (ri = 0, wi = len
+// for a reader; wi = 0 for a writer), afterwards it is what it was before.
+func (in *Interp) execIOManip(fr *frame, m *a.IOManip) ctl {
+	if m.Keyword() != t.IDIOBind {
+		in.unsupported("io manipulation " + in.str(m.Keyword()))
+	}
+	io := m.IO()
+	if io.Operator() != 0 {
+		in.unsupported("io_bind of " + io.Str(in.P.TM))
+	}
+	old, ok := fr.locals[io.Ident()]
+	if !ok || old.K != KIO {
+		in.unsupported("io_bind of " + io.Str(in.P.TM))
+	}
+	data := in.eval(fr, m.Arg1())
+	pos := in.eval(fr, m.HistoryPosition())
+	elems, lo, hi := in.elements(data)
+	nb := &IOBuf{Writer: old.IO.Writer, Data: make([]byte, hi-lo)}
+	for i := lo; i < hi; i++ {
+		nb.Data[i-lo] = byte((*elems)[i].N.Int64())
+	}
+	if !nb.Writer {
+		nb.Wi = hi - lo
+	}
+	if pos.N.IsUint64() {
+		nb.Pos = pos.N.Uint64()
+	}
+	fr.locals[io.Ident()] = Value{K: KIO, IO: nb}
+	c := in.execBlock(fr, m.Body())
+	if nb.Writer {
+		for i := 0; i < nb.Wi; i++ {
+			(*elems)[lo+i] = num(int64(nb.Data[i]))
+		}
+	}
+	fr.locals[io.Ident()] = old
+	return c
 }
 
 func (in *Interp) loopConds(fr *frame, w *a.While, keys ...t.ID) {
